@@ -111,6 +111,12 @@ def cases(props):
 def main(argv, quiet=False):
     props = [a for a in argv if re.match(r'^C\d\d$', a)]
     cs = cases(props)
+    kinds = [a for a in argv if a in ('seeded', 'reverted', 'benign')]
+    if kinds:
+        cs = [c for c in cs if c['kind'] in kinds]
+    names = [a[5:] for a in argv if a.startswith('name=')]
+    if names:
+        cs = [c for c in cs if any(n in c['name'] for n in names)]
     # group cases by the scratch tree they need
     groups = {}
     for c in cs:
